@@ -360,7 +360,7 @@ fn configs(prop: &str, thorough: bool) -> Vec<(Cfg, Option<usize>)> {
                     c.admin_lists = vec![vec![], vec![0], vec![1], vec![0, 1], vec![3], vec![0, 0]];
                     c.freeze_callers = vec![0, 1, 2, 3];
                     c.grant_callers = vec![0, 1, 2, 3];
-                    c.targets = if thorough { vec![tg(2, &[0, 1], Some(2)), tg(1, &[0], Some(2))] } else { vec![tg(2, &[0], Some(2)), tg(1, &[0], Some(1))] };
+                    c.targets = if thorough { vec![tg(2, &[0, 1], Some(2)), tg(1, &[0], Some(1))] } else { vec![tg(2, &[0], Some(2)), tg(1, &[0], Some(1))] };
                     c.inc_amounts = if thorough { vec![1, 2] } else { vec![1] };
                     c.dec_amounts = vec![1];
                     c.inc_exps = vec![ExpA::Unset, ExpA::H(H0 + 1)];
